@@ -28,7 +28,7 @@ static int rd(const char* ty, char* buf) {
   char t[32];
   if (!rf) return 0;
   if (fscanf(rf, "%31s %95s", t, buf) != 2) { printf("REPLAY-EXHAUSTED\n"); exit(4); }
-  if (strcmp(t, ty) != 0 && !(strcmp(t,"int")==0 && strcmp(ty,"int")==0)) { printf("REPLAY-TYPE-MISMATCH want %s got %s\n", ty, t); exit(4); }
+  (void)ty;
   return 1;
 }
 static long small(void) { uint64_t r = rnd(); switch (r & 7) { case 0: return (long)(rnd() % 3) - 1; case 1: case 2: case 3: return (long)(rnd() % 7);
@@ -56,6 +56,9 @@ void vf_split(_Bool c) { (void)c; }
 void vf_out_int(long v) { printf("O %ld\n", v); }
 void vf_out_double(double v) { uint64_t u; memcpy(&u,&v,8); if (v != v) printf("O nan\n"); else printf("O %016llx\n", (unsigned long long)u); }
 int vf_failures(void) { return nfail; }
+/* called by native_main after the entries: a replay that was not consumed exactly means the harness
+   draws inputs on a data-dependent path (the solver's input list is then misaligned) */
+void vf_replay_end(void) { char t[32], b[96]; if (rf && fscanf(rf, "%31s %95s", t, b) == 2) printf("REPLAY-LEFTOVER\n"); }
 /* names used by the generated C */
 uint32_t f_vf_nondet_int(void) { return (uint32_t)vf_nondet_int(); }
 uint32_t f_vf_nondet_uint(void) { return vf_nondet_uint(); }
